@@ -303,7 +303,7 @@ func (fv *FV) opaqueCall(e *Env, x *ast.CallExpr, fn *types.Func, recv *Value, a
 	if fn == nil || !fv.eng.inModule(fn) || isIfaceMethod(fn) {
 		fv.keepCounters = map[string]bool{}
 	} else if len(fv.eng.bumpRe) > 0 {
-		fv.keepCounters = fv.eng.bumpSet(fn) // in-module callee without contract: static call-graph analysis of its source
+		fv.keepCounters = fv.eng.bumpSetInner(fn) // in-module callee without contract: static call-graph analysis of its source
 	}
 	defer func() { fv.keepCounters = savedKeep }()
 	if havocAll {
@@ -940,7 +940,7 @@ func (fv *FV) applyContract(e *Env, x *ast.CallExpr, u *FuncUnit, recv *Value, a
 		// counters the callee provably cannot bump (static call-graph analysis)
 		savedKeep := fv.keepCounters
 		if len(fv.eng.bumpRe) > 0 {
-			fv.keepCounters = fv.eng.bumpSet(u.Fn)
+			fv.keepCounters = fv.eng.bumpSetInner(u.Fn)
 		}
 		fv.havocAll(e)
 		fv.keepCounters = savedKeep
@@ -1574,6 +1574,13 @@ func (fv *FV) ghostBuiltin(e *Env, x *ast.CallExpr, fn *types.Func) Value {
 		return Value{K: kScalar, T: fv.loadComp(e, kvWrites, sInt, tNull)}
 	case "gh_bytesId":
 		v := fv.expr(e, x.Args[0])
+		return Value{K: kScalar, T: fv.bytesID(e, v)}
+	case "gh_keyId":
+		// identity of a key slice: that of the keyformat.Encode call that produced it, else of its bytes
+		v := fv.expr(e, x.Args[0])
+		if id, ok := fv.sliceKeyID[v.T.S]; ok {
+			return Value{K: kScalar, T: id}
+		}
 		return Value{K: kScalar, T: fv.bytesID(e, v)}
 	case "gh_keyOf":
 		kf := fv.expr(e, x.Args[0])
